@@ -50,6 +50,13 @@ func (c *msgpackCodec) ReadResponseHeader(r *rpc.Response) error {
 }
 
 func (c *msgpackCodec) ReadResponseBody(body any) error {
+	// net/rpc passes nil to have the body of an error response read and
+	// discarded. Decoding into nil is an error and leaves the body in the
+	// stream, which shuts the client down and fails every other call that
+	// is in flight on the connection.
+	if body == nil {
+		return c.dec.Skip()
+	}
 	return c.dec.Decode(body)
 }
 
@@ -60,6 +67,10 @@ func (c *msgpackCodec) ReadRequestHeader(r *rpc.Request) error {
 }
 
 func (c *msgpackCodec) ReadRequestBody(body any) error {
+	// Same contract as above, nil means read and discard
+	if body == nil {
+		return c.dec.Skip()
+	}
 	return c.dec.Decode(body)
 }
 
